@@ -1151,6 +1151,10 @@ def _might_have_parameter(fn_or_cls, arg_name):
   """
   if inspect.isclass(fn_or_cls):  # pytype: disable=wrong-arg-types
     fn = _find_class_construction_fn(fn_or_cls)
+    if fn is object.__init__:
+      # A class that defines no constructor cannot be called with arguments,
+      # whatever the permissive `(*args, **kwargs)` of `object.__init__` says.
+      return False
   else:
     fn = fn_or_cls
 
